@@ -38,6 +38,7 @@ def run(ctx):
         r1(ctx, facts, cfg)
         r2(ctx, facts, cfg)
         r3(ctx, facts, cfg)
+        r4(ctx, facts, cfg)
 
 
 def r1(ctx, facts, cfg):
@@ -334,3 +335,50 @@ def r3(ctx, facts, cfg):
     ctx.ob("C18.R3c", "BacktraceStorage::store:no-overwrite-in-empty-ring", ok,
            "the overwrite arm indexes _stored_events[_index] only when the ring has at least one slot: a zero capacity never reaches it "
            "(capacity tests found: %d)" % len(zero_edges), fn=s)
+
+
+def r4(ctx, facts, cfg):
+    """frontend side of the backtrace: the requests that configure and flush the ring"""
+    fns = facts.need("quill::LoggerImpl::init_backtrace", cfg, floor=4)
+    for f in fns[:4]:
+        g = f.g
+        site = "init_backtrace<%s>" % f.name.split("LoggerImpl<")[1].split(">")[0]
+        capp, lvlp = f.rec["params"][0]["did"], f.rec["params"][1]["did"]
+        st = [n for n in f.walk() if (atomic_op(n) or {}).get("kind") == "store" and is_this_field(atomic_op(n)["obj"], "backtrace_flush_level")]
+        ok = len(st) == 1 and var_ref(atomic_op(st[0])["value"]) == lvlp and not g.exists_path([g.entry_node], [g.exit_node], avoid_nodes=npos(f, st))
+        ctx.ob("C18.R4a", site + ":flush-level-stored", ok,
+               "the requested flush level is stored into backtrace_flush_level — the field the backend compares every dispatched "
+               "statement's level with (R2d) — on every path", fn=f)
+        calls = f.calls(r"^quill::LoggerImpl<.*>::log_statement<")
+        decls = f.var_decls()
+        ok = len(calls) == 1 and len(calls[0]["args"]) >= 3 and var_ref(calls[0]["args"][2]) == capp
+        ev = []
+        if calls:
+            md = strip(calls[0]["args"][1], casts=True)
+            mv = var_ref(md["sub"]) if isnode(md) and md["k"] == "UnaryOperator" and md["op"] == "&" else None
+            src = decls.get(mv, {}).get("init")
+            ev = [x["name"].split("::")[-1] for x in walk(src) if x["k"] == "DeclRefExpr" and x.get("dk") == "EnumConstant" and "MacroMetadata::" in x.get("name", "")] if isnode(src) else []
+            fmt = [x.get("str") for x in walk(src) if x["k"] == "StringLiteral"] if isnode(src) else []
+            ok = ok and ev == ["InitBacktrace"] and "{}" in fmt
+        # retried until accepted: the only exit of the submit loop is the 'accepted' outcome
+        acc = branches_on_call(f, r"^quill::LoggerImpl<.*>::log_statement<")
+        ok = ok and bool(acc) and not g.exists_path([g.entry_node], npos(f, st), avoid_edges=[(b, t) for (b, t, c) in acc])
+        ctx.ob("C18.R4b", site + ":capacity-request", ok,
+               "the capacity is sent as the single argument of an InitBacktrace request whose template is \"{}\" (the backend parses the "
+               "formatted text back into the capacity), retried until the queue accepts it (%s)" % ev, fn=f)
+    for f in facts.need("quill::LoggerImpl::flush_backtrace", cfg, floor=4)[:4]:
+        g = f.g
+        site = "flush_backtrace<%s>" % f.name.split("LoggerImpl<")[1].split(">")[0]
+        calls = f.calls(r"^quill::LoggerImpl<.*>::log_statement<")
+        decls = f.var_decls()
+        ev = []
+        if calls:
+            md = strip(calls[0]["args"][1], casts=True)
+            mv = var_ref(md["sub"]) if isnode(md) and md["k"] == "UnaryOperator" and md["op"] == "&" else None
+            src = decls.get(mv, {}).get("init")
+            ev = [x["name"].split("::")[-1] for x in walk(src) if x["k"] == "DeclRefExpr" and x.get("dk") == "EnumConstant" and "MacroMetadata::" in x.get("name", "")] if isnode(src) else []
+        acc = branches_on_call(f, r"^quill::LoggerImpl<.*>::log_statement<")
+        ok = len(calls) == 1 and ev == ["FlushBacktrace"] and bool(acc) and not g.exists_path([g.entry_node], [g.exit_node], avoid_edges=[(b, t) for (b, t, c) in acc])
+        ctx.ob("C18.R4c", site + ":flush-request", ok,
+               "flush_backtrace submits a FlushBacktrace request and returns only once the queue accepted it (a dropping queue must not "
+               "lose the request) (%s)" % ev, fn=f)
